@@ -7,6 +7,7 @@ import (
 	"sort"
 	"strconv"
 	"strings"
+	"sync"
 	"time"
 
 	"github.com/go-kit/log"
@@ -24,6 +25,9 @@ import (
 //	C15.mrepl <pdesc> <instances> <healthy-states,partition> || <instances in order;maxUnavailableZones | err>
 //
 // All timestamps of a history are written relative to the wall-clock second at which the history started.
+// Every op carries "@t0:t1", the wall-clock bracket (seconds) of the call that performed it. Op "D" is a
+// waitPartitionAndRegisterOwner call that STARTED while the partition did not exist and registered only after
+// another lifecycler created it >= 1.2 s later; its extra field is the second at which the partition became visible.
 func init() {
 	register("C15", runC15)
 	register("C15.tables", c15Tables)
@@ -445,10 +449,107 @@ func c15History(e *env, r *rng) {
 			}
 			op = fmt.Sprintf("S,%d,%d", ci, b)
 		}
-		ops = append(ops, op)
+		t1 := time.Now().Unix()
+		ops = append(ops, fmt.Sprintf("%s@%d:%d", op, t0-base, t1-base))
 		obs = append(obs, res+"@"+encPDescOpt(c15Rebase(get(), base), true))
 	}
 	e.emit("C15.hist", encPDescOpt(c15Rebase(init, base), true), strings.Join(lcStr, ";"), strings.Join(ops, ";"), strings.Join(obs, "#"))
+}
+
+// c15SlowWait: lifecycler A starts waitPartitionAndRegisterOwner (creation on startup disabled) while its
+// partition does not exist; lifecycler B creates the partition only `delay` (1.2..2.0 s, real time) later; A then
+// registers; reconcile ticks of A follow under a virtual clock placed at the promotion boundary of the TRUE
+// registration time. Returns the fields of one C15.hist line.
+func c15SlowWait(seed uint64, idx int) []string {
+	r := newRng(seed, uint64(1510+idx))
+	logger := log.NewNopLogger()
+	store, closer := consul.NewInMemoryClient(ring.GetPartitionRingCodec(), logger, nil)
+	defer closer.Close()
+	ctx := context.Background()
+	const key = "pring"
+	pid := int32(r.intn(4))
+	waitDur := 1 + r.intn(2)
+	multi := r.chance(1, 3)
+	mk := func(inst string, waitCount int) *c15LC {
+		c := &c15LC{pid: pid, instance: inst, multi: multi, waitCount: waitCount, waitDur: waitDur, deleteAfter: 0}
+		c.l = ring.NewPartitionInstanceLifecycler(ring.PartitionInstanceLifecyclerConfig{
+			PartitionID: c.pid, InstanceID: c.instance, MultiPartitionOwnership: c.multi,
+			WaitOwnersCountOnPending: c.waitCount, WaitOwnersDurationOnPending: time.Duration(c.waitDur) * time.Second,
+			PollingInterval: 10 * time.Millisecond,
+		}, "verif", key, store, logger, nil)
+		c.l.SetCreatePartitionOnStartup(false)
+		return c
+	}
+	a, b := mk("ing-a-0", 1), mk("ing-b-0", 1+r.intn(2))
+	lcStr := func(c *c15LC) string {
+		m := "0"
+		if c.multi {
+			m = "1"
+		}
+		return strings.Join([]string{itoa(int(c.pid)), c.instance, m, itoa(c.waitCount), itoa(c.waitDur), itoa(c.deleteAfter)}, ",")
+	}
+	get := func() *ring.PartitionRingDesc {
+		v, err := store.Get(ctx, key)
+		if err != nil {
+			panic(err)
+		}
+		return ring.GetOrCreatePartitionRingDesc(v)
+	}
+	init := ring.NewPartitionRingDesc()
+	if err := store.CAS(ctx, key, func(interface{}) (interface{}, bool, error) { return ring.NewPartitionRingDesc(), true, nil }); err != nil {
+		panic(err)
+	}
+	delay := time.Duration(1200+r.intn(800)) * time.Millisecond
+
+	base := time.Now().Unix()
+	started := make(chan int64)
+	type waitRes struct {
+		err error
+		t1  int64
+	}
+	done := make(chan waitRes)
+	go func() {
+		t0 := time.Now().Unix()
+		started <- t0
+		err := a.l.VerifWaitPartitionAndRegisterOwner(ctx)
+		done <- waitRes{err, time.Now().Unix()}
+	}()
+	waitT0 := <-started
+	time.Sleep(delay)
+
+	var ops, obs []string
+	rec := func(op, res string) {
+		ops = append(ops, op)
+		obs = append(obs, res+"@"+encPDescOpt(c15Rebase(get(), base), true))
+	}
+	// B creates the partition: from this instant on (and not before) it is visible to A
+	tvis := time.Now().Unix()
+	errC := b.l.VerifCreatePartitionAndRegisterOwner(ctx)
+	tC1 := time.Now().Unix()
+	afterCreate := get()
+	// the store may already contain A's registration; the version recorded for C is the one B wrote (A's owner removed)
+	bOnly := c15Rebase(afterCreate, 0)
+	delete(bOnly.Owners, a.ownerID())
+	ops = append(ops, fmt.Sprintf("C,1,%d,%d@%d:%d", len(afterCreate.Partitions[pid].Tokens), afterCreate.Partitions[pid].StateTimestamp-base, tvis-base, tC1-base))
+	obs = append(obs, c15Err(errC)+"@"+encPDescOpt(c15Rebase(bOnly, base), true))
+	wr := <-done
+	cur := get()
+	ownerTs := cur.Owners[a.ownerID()].UpdatedTimestamp
+	rec(fmt.Sprintf("D,0,%d,%d@%d:%d", ownerTs-base, tvis-base, waitT0-base, wr.t1-base), c15Err(wr.err))
+
+	// reconcile ticks of A at the boundary of the true registration time (>= tvis)
+	nows := []int64{tvis - base + int64(waitDur), ownerTs - base + int64(waitDur), ownerTs - base + int64(waitDur) + 1, wr.t1 - base + int64(waitDur) + 1}
+	for _, now := range nows {
+		before := testutil.ToFloat64(a.l.VerifReconcilesFailedTotal().WithLabelValues("owned-partition"))
+		t0 := time.Now().Unix()
+		a.l.VerifReconcileOwnedPartition(ctx, time.Unix(base+now, 0))
+		res := "ok"
+		if testutil.ToFloat64(a.l.VerifReconcilesFailedTotal().WithLabelValues("owned-partition")) != before {
+			res = "failed"
+		}
+		rec(fmt.Sprintf("O,0,%d@%d:%d", now, t0-base, time.Now().Unix()-base), res)
+	}
+	return []string{"C15.hist", encPDescOpt(c15Rebase(init, base), true), lcStr(a) + ";" + lcStr(b), strings.Join(ops, ";"), strings.Join(obs, "#")}
 }
 
 // ---- replication sets ----
@@ -588,6 +689,26 @@ func c15Repl(e *env, r *rng) {
 }
 
 func runC15(e *env) {
+	// slow-wait histories run concurrently with everything else (each sleeps 1.2..2.0 s of real time)
+	nSlow := 6
+	if !e.quick {
+		nSlow = 48
+	}
+	slow := make([][]string, nSlow)
+	var wg sync.WaitGroup
+	for i := 0; i < nSlow; i++ {
+		wg.Add(1)
+		go func(i int) {
+			defer wg.Done()
+			slow[i] = c15SlowWait(e.seed, i)
+		}(i)
+	}
+	defer func() {
+		wg.Wait()
+		for _, f := range slow {
+			e.emit(f...)
+		}
+	}()
 	c15GenRoute(e)
 	r := newRng(e.seed, 1502)
 	for i := 0; i < 2500*e.scale; i++ {
